@@ -10,15 +10,21 @@ import (
 	"path/filepath"
 	"reflect"
 	"sort"
+	"strings"
+
+	"golang.org/x/tools/go/callgraph/cha"
+	"golang.org/x/tools/go/ssa"
 )
 
 // structuralObligations returns the K obligations of a property.
-func structuralObligations(p *Loaded, verif string, kinds []string) []*Obligation {
+func structuralObligations(p *Loaded, verif string, kinds []string, entries []string) []*Obligation {
 	var out []*Obligation
 	for _, k := range kinds {
 		switch k {
 		case "conf_tags":
 			out = append(out, confTags(p, verif)...)
+		case "shared_state":
+			out = append(out, sharedState(p, entries)...)
 		}
 	}
 	return out
@@ -100,3 +106,131 @@ func confTags(p *Loaded, verif string) []*Obligation {
 	out = append(out, kObl(fn, "conf_tags.no_undocumented_field", len(extra) == 0, fmt.Sprint(extra)))
 	return out
 }
+
+// sharedState (C20): no function of the repository reachable from the listed entry points writes a
+// package-level variable, or reads one that is written after initialisation.  Reachability is the
+// class-hierarchy call graph (every method that can implement an invoked interface method).
+func sharedState(p *Loaded, entries []string) []*Obligation {
+	fn := "shared-state"
+	cg := cha.CallGraph(p.Prog)
+	inRepo := func(f *ssa.Function) bool {
+		if f == nil || f.Pkg == nil {
+			if f != nil && f.Parent() != nil {
+				f = f.Parent()
+				return f.Pkg != nil && (strings.HasPrefix(f.Pkg.Pkg.Path(), "free5gclib/") || f.Pkg.Pkg.Path() == "tglib" || strings.HasPrefix(f.Pkg.Pkg.Path(), "tglib/") || f.Pkg.Pkg.Path() == "stgutg")
+			}
+			return false
+		}
+		pp := f.Pkg.Pkg.Path()
+		return strings.HasPrefix(pp, "free5gclib/") || pp == "tglib" || strings.HasPrefix(pp, "tglib/") || pp == "stgutg"
+	}
+	reach := map[*ssa.Function]string{}
+	var work []*ssa.Function
+	found := map[string]bool{}
+	for f := range p.allFuncs {
+		for _, e := range entries {
+			if fnName(f) == e {
+				reach[f] = e
+				work = append(work, f)
+				found[e] = true
+			}
+		}
+	}
+	var out []*Obligation
+	for _, e := range entries {
+		out = append(out, kObl(fn, "entry."+e, found[e], "entry point not found in the loaded program"))
+	}
+	for len(work) > 0 {
+		f := work[len(work)-1]
+		work = work[:len(work)-1]
+		n := cg.Nodes[f]
+		if n == nil {
+			continue
+		}
+		for _, e := range n.Out {
+			c := e.Callee.Func
+			if _, ok := reach[c]; ok || !inRepo(c) || c.Blocks == nil {
+				continue
+			}
+			reach[c] = reach[f]
+			work = append(work, c)
+		}
+	}
+	type hit struct{ fns map[string]bool }
+	writes := map[string]*hit{}
+	reads := map[string]*hit{}
+	base := func(v ssa.Value) *ssa.Global {
+		for {
+			switch t := v.(type) {
+			case *ssa.Global:
+				return t
+			case *ssa.FieldAddr:
+				v = t.X
+			case *ssa.IndexAddr:
+				v = t.X
+			case *ssa.Slice:
+				v = t.X
+			default:
+				return nil
+			}
+		}
+	}
+	note := func(m map[string]*hit, g *ssa.Global, f *ssa.Function) {
+		k := g.String()
+		if m[k] == nil {
+			m[k] = &hit{map[string]bool{}}
+		}
+		m[k].fns[fnName(f)] = true
+	}
+	for f := range reach {
+		if f.Name() == "init" || strings.HasPrefix(f.Name(), "init#") {
+			continue
+		}
+		for _, b := range f.Blocks {
+			for _, ins := range b.Instrs {
+				switch i := ins.(type) {
+				case *ssa.Store:
+					if g := base(i.Addr); g != nil {
+						note(writes, g, f)
+					}
+				case *ssa.UnOp:
+					if g := base(i.X); g != nil && p.mutableGlobals[g] {
+						note(reads, g, f)
+					}
+				}
+			}
+		}
+	}
+	keys := func(m map[string]*hit) []string {
+		var ks []string
+		for k := range m {
+			ks = append(ks, k)
+		}
+		sort.Strings(ks)
+		return ks
+	}
+	for _, k := range keys(writes) {
+		var fs []string
+		for f := range writes[k].fns {
+			fs = append(fs, f)
+		}
+		sort.Strings(fs)
+		out = append(out, kObl(fn, "no-write."+k, false, "written by "+strings.Join(fs, ", ")))
+	}
+	for _, k := range keys(reads) {
+		if writes[k] != nil {
+			continue
+		}
+		var fs []string
+		for f := range reads[k].fns {
+			fs = append(fs, f)
+		}
+		sort.Strings(fs)
+		out = append(out, kObl(fn, "no-read-of-mutable."+k, false, "read by "+strings.Join(fs, ", ")))
+	}
+	out = append(out, kObl(fn, fmt.Sprintf("reachable-functions-scanned"), len(reach) > 0, fmt.Sprintf("%d functions", len(reach))))
+	sharedStateCount = len(reach)
+	return out
+}
+
+var sharedStateCount int
